@@ -5,6 +5,7 @@ import (
 	"reflect"
 
 	"github.com/philpearl/plenc"
+	"github.com/unravelin/null"
 
 	"verifharness/core"
 	"verifharness/gen"
@@ -129,3 +130,11 @@ func reachesRecursive(t reflect.Type, seen map[reflect.Type]bool) bool {
 	}
 	return false
 }
+
+type (
+	nullInt    = null.Int
+	nullBool   = null.Bool
+	nullFloat  = null.Float
+	nullString = null.String
+	nullTime   = null.Time
+)
